@@ -3,6 +3,7 @@ package main
 import (
 	"fmt"
 	"go/ast"
+	"go/parser"
 	"go/token"
 	"go/types"
 	"strings"
@@ -323,8 +324,62 @@ func (r *UnitRun) execReturn(st *State, s *ast.ReturnStmt) {
 
 // finish checks the postconditions on a return path.
 func (r *UnitRun) finish(st *State, vals []Val, n *ast.ReturnStmt) {
+	witness := map[string]Val{}
+	if len(r.unit.Witness) > 0 {
+		for _, name := range sortedKeys(r.unit.Witness) {
+			func() {
+				defer func() { recover() }() // the local may not exist on this return path: keep the existential
+				e, err := parser.ParseExpr(r.unit.Witness[name])
+				if err != nil {
+					return
+				}
+				wenv := &SpecEnv{run: r, st: st, old: r.entry, bound: map[string]Val{}}
+				v := wenv.eval(e)
+				if v.K == KRef && v.Sort == "T" {
+					witness[name] = v
+				}
+			}()
+		}
+	}
+	// intermediate facts ("have"): stated over the locals as they are at this return, proved in order, then assumed
+	if len(r.unit.Have) > 0 && !r.errReturnedVals(vals) {
+		for i, c := range r.unit.Have {
+			func() {
+				defer func() {
+					if x := recover(); x != nil {
+						if _, ok := x.(toolLimit); ok {
+							return // a local is not defined on this path
+						}
+						panic(x)
+					}
+				}()
+				henv := &SpecEnv{run: r, st: st, old: r.entry, bound: map[string]Val{}}
+				goal := r.specBool(henv, c, "have of "+r.unit.Name)
+				ost := st
+				if len(c.Uses) > 0 {
+					ost = st.clone()
+					r.assumeNamed(ost, c.Uses)
+				}
+				r.oblige(ost, "have", fmt.Sprintf("%d", i), goal, n, "intermediate fact: "+c.Text, c.Tags)
+				st.assume(goal)
+			}()
+		}
+	}
 	res := r.resultNames()
 	bound := map[string]Val{}
+	// in postconditions a parameter name denotes the argument value (parameters are local variables in Go and may be
+	// reassigned by the body)
+	if r.unit.Recv != nil {
+		if v, ok := r.entry.vars[r.unit.Recv]; ok {
+			bound[r.unit.Recv.Name()] = v
+		}
+	}
+	for i := 0; i < r.unit.Sig.Params().Len(); i++ {
+		pv := r.unit.Sig.Params().At(i)
+		if v, ok := r.entry.vars[pv]; ok && pv.Name() != "" && pv.Name() != "_" {
+			bound[pv.Name()] = v
+		}
+	}
 	for i, rv := range res {
 		v := r.convertTo(st, vals[i], rv.typ)
 		bound[rv.name] = v
@@ -360,9 +415,15 @@ func (r *UnitRun) finish(st *State, vals []Val, n *ast.ReturnStmt) {
 		}
 	}
 	env := &SpecEnv{run: r, st: st, old: r.entry, bound: bound}
+	env.witness = witness
 	for i, c := range r.unit.Ensures {
 		goal := r.specBool(env, c, "ensures of "+r.unit.Name)
-		r.oblige(st, "post", fmt.Sprintf("%d", i), goal, node, "postcondition: "+c.Text+" (at "+retSite+")", c.Tags)
+		ost := st
+		if len(c.Uses) > 0 {
+			ost = st.clone()
+			r.assumeNamed(ost, c.Uses)
+		}
+		r.oblige(ost, "post", fmt.Sprintf("%d", i), goal, node, "postcondition: "+c.Text+" (at "+retSite+")", c.Tags)
 	}
 	if r.unit.Implements != "" {
 		au := r.prog.Units[r.unit.Implements]
@@ -381,6 +442,15 @@ func (r *UnitRun) finish(st *State, vals []Val, n *ast.ReturnStmt) {
 	}
 	// vacuity canary: the path to this return must be satisfiable
 	r.oblige(st, "canary", retSite, "false", node, "path to this return is reachable (must NOT be provable)", nil)
+}
+
+func (r *UnitRun) errReturnedVals(vals []Val) bool {
+	for _, v := range vals {
+		if v.K == KErr && v.T == "false" {
+			return true
+		}
+	}
+	return false
 }
 
 func (r *UnitRun) errReturned(bound map[string]Val) bool {
